@@ -27,6 +27,8 @@ def run(demo):
 
 bad, ran = [], 0
 for demo in sorted(glob.glob(os.path.join(root, 'seeded', PROP + '-*', 'demo.py'))):
+    if os.path.basename(os.path.dirname(demo)) in os.environ.get('PYVC_BATTERY_EXCLUDE', '').split(','):
+        continue                          # evaluating that very seeded change: its own demonstration must not be what catches it
     rc, out = run(demo)
     if rc == 1:
         rc, out = run(demo)               # once more: timing
